@@ -293,13 +293,22 @@ Definition norm_host_text (u : uri) : option text :=
     end
   end.
 
-(* segment list after path normalization: percent-encodings, dot segments, lone empty segment *)
+(* uriFixAmbiguity on the segment list *)
+Definition guard_segs (host abs : bool) (l : list text) : list text :=
+  match abs, l with
+  | true, [] :: _ :: _ => [46] :: l
+  | false, [] :: [] :: _ => if host then l else [46] :: l
+  | _, _ => l
+  end.
+
+(* segment list after path normalization: percent-encodings, dot segments, the "." guard, lone empty segment *)
 Definition norm_segs_of (rel host abs : bool) (segs : list text) : list text :=
   let segs := map fix_pct segs in
   let out := match segs with
              | [] => []
              | _ => rds_walk rel host abs [] segs
              end in
+  let out := guard_segs host abs out in
   if negb host then match out with [[]] => [] | _ => out end else out.
 Definition norm_segs (u : uri) : list text :=
   norm_segs_of (relative_ref u) (is_host_set u) (absolutePath u) (pathSegs u).
@@ -323,7 +332,7 @@ Definition st_path (b : bool) (u : uri) : uri :=
   if b then
     let relative := negb (is_some (scheme u)) && negb (absolutePath u) && negb (is_host_set u) in
     let u := set_pathSegs (map fix_pct (pathSegs u)) u in
-    fix_empty_trail_segment (remove_dot_segments relative u)
+    fix_empty_trail_segment (fix_ambiguity (remove_dot_segments relative u))
   else u.
 Definition st_query (b : bool) (u : uri) : uri :=
   if b then set_query (omap fix_pct (query u)) u else u.
@@ -388,11 +397,19 @@ Proof.
     assert (pathSegs (set_pathSegs w u) = w) as Hw by (destruct u; reflexivity). rewrite Hw.
     destruct (negb (is_host_set u)); [|reflexivity].
     destruct w as [|[|? ?] [|? ?]]; reflexivity. }
+  assert (forall w, fix_ambiguity (set_pathSegs w u) =
+                    set_pathSegs (guard_segs (is_host_set u) (absolutePath u) w) u) as Hg.
+  { intros w. unfold fix_ambiguity, guard_segs. rewrite Hh.
+    assert (pathSegs (set_pathSegs w u) = w) as Hw by (destruct u; reflexivity).
+    assert (absolutePath (set_pathSegs w u) = absolutePath u) as Ha' by (destruct u; reflexivity).
+    rewrite Hw, Ha'.
+    destruct (absolutePath u); destruct w as [|[|? ?] [|[|? ?] ?]]; try reflexivity;
+      try (destruct (is_host_set u)); rewrite ?Hss; reflexivity. }
   assert (forall w, set_pathSegs w u = mkUri (scheme u) (userInfo u) (hostText u) (ip4 u) (ip6 u)
         (ipFuture u) (portText u) w (query u) (fragment u) (absolutePath u) (owner u)) as Hm by reflexivity.
   destruct (map fix_pct (pathSegs u)) as [|s0 sl] eqn:E.
-  - rewrite Hf, Hm. destruct (negb (is_host_set u)); reflexivity.
-  - rewrite Hss, Hf, Hm. reflexivity.
+  - rewrite Hg, Hf, Hm. destruct (absolutePath u), (negb (is_host_set u)); reflexivity.
+  - rewrite Hss, Hg, Hf, Hm. reflexivity.
 Qed.
 
 Lemma is_some_omap_if (b : bool) f o : is_some (if b then omap f o else o) = is_some o.
@@ -502,6 +519,11 @@ Lemma normalize_full_fields u : uri_pct_wf u = true ->
                     | [] => []
                     | _ => rds_walk (relative_ref u) (is_host_set u) (absolutePath u) [] segs
                     end in
+         let out := match absolutePath u, out with
+                    | true, [] :: _ :: _ => [46] :: out
+                    | false, [] :: [] :: _ => if is_host_set u then out else [46] :: out
+                    | _, _ => out
+                    end in
          if negb (is_host_set u) then match out with [[]] => [] | _ => out end else out)
         (omap (Normal.pct_norm false) (query u))
         (omap (Normal.pct_norm false) (fragment u))
@@ -519,7 +541,7 @@ Proof.
   rewrite (Ho _ Hui), (Ho _ Hqu), (Ho _ Hfr).
   assert (map fix_pct (pathSegs u) = map (Normal.pct_norm false) (pathSegs u)) as Hm.
   { apply map_ext_in. intros s Hs. apply fix_pct_spec. rewrite forallb_forall in Hps. apply Hps. exact Hs. }
-  unfold norm_segs, norm_segs_of. rewrite Hm. cbv zeta.
+  unfold norm_segs, norm_segs_of, guard_segs. rewrite Hm. cbv zeta.
   assert (norm_host_text u = match ipFuture u with
          | Some f => Some (map Normal.lower f)
          | None => if is_regname u then omap (Normal.pct_norm true) (hostText u) else hostText u
@@ -549,16 +571,17 @@ Qed.
 
 (* segments without dot segments and ugly percent-encodings are a fixed point *)
 Lemma norm_segs_of_clean rel host abs segs :
-  Forall seg_clean segs -> (host = false -> segs <> [[]]) -> norm_segs_of rel host abs segs = segs.
+  Forall seg_clean segs -> (host = false -> segs <> [[]]) -> guard_segs host abs segs = segs ->
+  norm_segs_of rel host abs segs = segs.
 Proof.
-  intros Hc Hl. unfold norm_segs_of.
+  intros Hc Hl Hg. unfold norm_segs_of.
   assert (map fix_pct segs = segs) as Hm.
-  { clear Hl. induction Hc as [|s r [_ [_ Hs]] Hr IH]; [reflexivity|]. cbn [map]. rewrite Hs, IH. reflexivity. }
+  { clear Hl Hg. induction Hc as [|s r [_ [_ Hs]] Hr IH]; [reflexivity|]. cbn [map]. rewrite Hs, IH. reflexivity. }
   rewrite Hm. cbv zeta.
   assert (match segs with [] => [] | _ => rds_walk rel host abs [] segs end = segs) as Hw.
   { destruct segs as [|s r]; [reflexivity|]. rewrite rds_walk_no_dots; [reflexivity|].
     eapply Forall_impl; [|exact Hc]. intros x [H1 [H2 _]]. auto. }
-  rewrite Hw. destruct host; [reflexivity|]. cbn [negb].
+  rewrite Hw, Hg. destruct host; [reflexivity|]. cbn [negb].
   destruct segs as [|[|? ?] [|? ?]]; try reflexivity. exfalso. apply Hl; reflexivity.
 Qed.
 
@@ -586,17 +609,24 @@ Proof.
       * apply IH; [|exact Hn]. constructor; [|exact Hk]. repeat split; assumption.
 Qed.
 
-Lemma norm_segs_of_abs_clean host abs segs : forallb pct_wf segs = true ->
-  Forall seg_clean (norm_segs_of false host abs segs).
+(* the three steps of [norm_segs_of] by name *)
+Definition walk0 (rel host abs : bool) (segs : list text) : list text :=
+  match segs with [] => [] | _ => rds_walk rel host abs [] segs end.
+Definition fet_segs (host : bool) (out : list text) : list text :=
+  if negb host then match out with [[]] => [] | _ => out end else out.
+Lemma norm_segs_of_steps rel host abs segs :
+  norm_segs_of rel host abs segs = fet_segs host (guard_segs host abs (walk0 rel host abs (map fix_pct segs))).
+Proof. reflexivity. Qed.
+
+(* what comes out of the absolute walk is clean; the guard may then put one "." in front of it *)
+Lemma walk0_abs_clean host abs segs : forallb pct_wf segs = true ->
+  Forall seg_clean (walk0 false host abs (map fix_pct segs)).
 Proof.
-  intros Hwf. unfold norm_segs_of. cbv zeta.
+  intros Hwf. unfold walk0.
   assert (Forall (fun s => fix_pct s = s) (map fix_pct segs)) as Hf.
   { apply Forall_forall. intros x Hx. apply in_map_iff in Hx. destruct Hx as [s [Hs Hin]]. subst x.
     apply fix_pct_idem. rewrite forallb_forall in Hwf. auto. }
-  assert (Forall seg_clean (match map fix_pct segs with [] => [] | _ => rds_walk false host abs [] (map fix_pct segs) end)) as Ho.
-  { destruct (map fix_pct segs) as [|s0 sl]; [constructor|]. apply rds_walk_abs_clean; [constructor|exact Hf]. }
-  destruct (negb host); [|exact Ho].
-  match goal with |- Forall _ (match ?o with _ => _ end) => destruct o as [|[|? ?] [|? ?]] end; try exact Ho. constructor.
+  destruct (map fix_pct segs) as [|s0 sl]; [constructor|]. apply rds_walk_abs_clean; [constructor|exact Hf].
 Qed.
 
 Lemma norm_segs_of_not_lone rel abs segs : norm_segs_of rel false abs segs <> [[]].
@@ -682,15 +712,79 @@ Qed.
 
 Lemma norm_segs_of_fixed rel host abs segs :
   Forall (fun s => fix_pct s = s) segs -> rds_walk rel host abs [] segs = segs ->
-  (host = false -> segs <> [[]]) -> norm_segs_of rel host abs segs = segs.
+  (host = false -> segs <> [[]]) -> guard_segs host abs segs = segs -> norm_segs_of rel host abs segs = segs.
 Proof.
-  intros Hc Hw Hl. unfold norm_segs_of.
+  intros Hc Hw Hl Hg. unfold norm_segs_of.
   assert (map fix_pct segs = segs) as Hm.
-  { clear Hl Hw. induction Hc as [|s r Hs Hr IH]; [reflexivity|]. cbn [map]. rewrite Hs, IH. reflexivity. }
+  { clear Hl Hw Hg. induction Hc as [|s r Hs Hr IH]; [reflexivity|]. cbn [map]. rewrite Hs, IH. reflexivity. }
   rewrite Hm. cbv zeta. rewrite Hw.
   assert (match segs with [] => [] | _ :: _ => segs end = segs) as Hw' by (destruct segs; reflexivity).
-  rewrite Hw'. destruct host; [reflexivity|]. cbn [negb].
+  rewrite Hw', Hg. destruct host; [reflexivity|]. cbn [negb].
   destruct segs as [|[|? ?] [|? ?]]; try reflexivity. exfalso. apply Hl; reflexivity.
+Qed.
+
+(* the walk keeps "every segment is a fixed point of the percent-encoding engine" *)
+Lemma rds_walk_fixed rel host abs rest : forall kept,
+  Forall (fun s => fix_pct s = s) kept -> Forall (fun s => fix_pct s = s) rest ->
+  Forall (fun s => fix_pct s = s) (rds_walk rel host abs kept rest).
+Proof.
+  assert (forall k, Forall (fun s => fix_pct s = s) k -> Forall (fun s => fix_pct s = s) (rev k)) as Hrev.
+  { intros k Hk. apply Forall_forall. intros x Hx. apply in_rev in Hx. rewrite Forall_forall in Hk. auto. }
+  induction rest as [|w nxt IH]; intros kept Hk Hr.
+  - cbn [rds_walk]. auto.
+  - inversion Hr as [|? ? Hw Hn]; subst. cbn [rds_walk].
+    destruct (seg_dot w).
+    + destruct (rel && _ && _); [apply IH; auto|].
+      destruct nxt as [|n1 n2]; [|apply IH; assumption].
+      destruct kept as [|p k]; [destruct host; repeat constructor|].
+      apply Hrev. constructor; [reflexivity|assumption].
+    + destruct (seg_dotdot w).
+      * destruct (rel && _); [apply IH; auto|].
+        destruct kept as [|p [|pp kk]].
+        -- destruct nxt as [|n1 n2]; [destruct abs; repeat constructor|apply IH; auto].
+        -- destruct nxt as [|n1 n2]; [destruct abs; repeat constructor|apply IH; auto].
+        -- inversion Hk as [|? ? _ Hk']; subst.
+           destruct nxt as [|n1 n2]; [apply Hrev; constructor; [reflexivity|assumption]|apply IH; assumption].
+      * apply IH; auto.
+Qed.
+
+Lemma walk0_fixed rel host abs segs : forallb pct_wf segs = true ->
+  Forall (fun s => fix_pct s = s) (walk0 rel host abs (map fix_pct segs)).
+Proof.
+  intros Hps. unfold walk0.
+  assert (Forall (fun s => fix_pct s = s) (map fix_pct segs)) as Hf.
+  { apply Forall_forall. intros x Hx. apply in_map_iff in Hx. destruct Hx as [s [Hs' Hin]]. subst x.
+    apply fix_pct_idem. rewrite forallb_forall in Hps. auto. }
+  destruct (map fix_pct segs) as [|s0 sl]; [constructor|]. apply rds_walk_fixed; [constructor|exact Hf].
+Qed.
+
+Lemma map_fixed l : Forall (fun s => fix_pct s = s) l -> map fix_pct l = l.
+Proof. induction 1 as [|s r Hs Hr IH]; [reflexivity|]. cbn [map]. rewrite Hs, IH. reflexivity. Qed.
+
+(* path normalization applied to its own result gives that result again whenever the output of the first
+   walk is stable under the walk: a guard segment "." is removed by the second walk (it is followed by an
+   empty segment, so never "essential") and put back by the second guard *)
+Lemma norm_segs_of_idem rel host abs segs :
+  Forall (fun s => fix_pct s = s) (walk0 rel host abs (map fix_pct segs)) ->
+  rds_walk rel host abs [] (walk0 rel host abs (map fix_pct segs)) = walk0 rel host abs (map fix_pct segs) ->
+  norm_segs_of rel host abs (norm_segs_of rel host abs segs) = norm_segs_of rel host abs segs.
+Proof.
+  rewrite (norm_segs_of_steps rel host abs segs).
+  set (out := walk0 rel host abs (map fix_pct segs)). intros Hf Hw.
+  pose proof (map_fixed out Hf) as Hm.
+  assert (rds_walk rel host abs [] (@cons text [46] out) = match out with [] => (if host then [[]] else []) | _ => rds_walk rel host abs [] out end
+          \/ match out with n1 :: _ => has_colon n1 | [] => false end = true) as Hdot.
+  { destruct out as [|n1 nn]; [left; cbn [rds_walk seg_dot andb]; rewrite ?andb_false_r; reflexivity|].
+    destruct (has_colon n1) eqn:Ec; [right; reflexivity|left].
+    cbn [rds_walk andb]. change (seg_dot [46]) with true. cbv iota. rewrite Ec, andb_false_r. reflexivity. }
+  assert (forall l, l <> [] -> norm_segs_of rel host abs l = fet_segs host (guard_segs host abs (rds_walk rel host abs [] (map fix_pct l)))) as Hne.
+  { intros l Hl. rewrite norm_segs_of_steps. unfold walk0. destruct l; [congruence|reflexivity]. }
+  destruct abs, host, out as [|[|c0 x0] [|[|c1 x1] r]] eqn:Eo; cbn [guard_segs fet_segs negb]; cbv iota in Hdot;
+    try reflexivity;
+    try (rewrite Hne by discriminate; cbn [map]; cbn [map] in Hm; rewrite ?Hm;
+         change (fix_pct [46]) with [46];
+         try (destruct Hdot as [Hdot|Hdot]; [rewrite Hdot|discriminate Hdot]);
+         rewrite ?Hw; reflexivity).
 Qed.
 
 (* ------------------------------------------------------------------ D. the mask query *)
@@ -729,7 +823,7 @@ Lemma unflagged_fixed u : uri_wf u ->
   /\ (ugly (query u) = false -> omap fix_pct (query u) = query u)
   /\ (ugly (fragment u) = false -> omap fix_pct (fragment u) = fragment u).
 Proof.
-  intros [Hwf [Hfc Hle]].
+  intros [Hwf [Hfc [Hle Hamb]]].
   unfold uri_pct_wf in Hwf. apply andb_prop in Hwf. destruct Hwf as [Hwf Hfr].
   apply andb_prop in Hwf. destruct Hwf as [Hwf Hqu]. apply andb_prop in Hwf. destruct Hwf as [Hwf Hps].
   apply andb_prop in Hwf. destruct Hwf as [Hui Hho].
@@ -755,6 +849,9 @@ Proof.
       repeat split; try assumption. apply contains_ugly_exact; [|exact H3].
       rewrite forallb_forall in Hps. auto.
     + intros Hh E. unfold lone_empty_hostless in Hle. rewrite Hh, E in Hle. discriminate Hle.
+    + unfold ambiguous_path in Hamb. unfold guard_segs.
+      destruct (absolutePath u), (pathSegs u) as [|[|? ?] [|[|? ?] ?]]; try reflexivity; try discriminate Hamb.
+      destruct (is_host_set u); [reflexivity|discriminate Hamb].
 Qed.
 
 Lemma components_fields mask u : mask <> 0 ->
@@ -835,12 +932,12 @@ Proof.
     destruct (host_norm_fixed t Ht) as [_ [F1 F2]]. rewrite F1, F2. reflexivity.
 Qed.
 
-(* full normalization is idempotent whenever the path of its result is stable *)
-Lemma normalize_idem_stable u : uri_pct_wf u = true ->
-  stable_path (relative_ref u) (pathSegs (normalize 63 u)) = true ->
+(* full normalization is idempotent whenever path normalization is *)
+Lemma normalize_idem_core u : uri_pct_wf u = true ->
+  norm_segs (normalize 63 u) = pathSegs (normalize 63 u) ->
   components (normalize 63 (normalize 63 u)) = components (normalize 63 u).
 Proof.
-  intros Hwf Hnd.
+  intros Hwf Hp.
   pose proof Hwf as Hwf'. unfold uri_pct_wf in Hwf'. apply andb_prop in Hwf'. destruct Hwf' as [Hwf' Hfr].
   apply andb_prop in Hwf'. destruct Hwf' as [Hwf' Hqu]. apply andb_prop in Hwf'. destruct Hwf' as [Hwf' Hps].
   apply andb_prop in Hwf'. destruct Hwf' as [Hui Hho].
@@ -862,55 +959,63 @@ Proof.
   assert (omap fix_pct (userInfo v) = userInfo v) as H1 by (rewrite Hv; cbn [userInfo]; apply Ho; exact Hui).
   assert (omap fix_pct (query v) = query v) as H2 by (rewrite Hv; cbn [query]; apply Ho; exact Hqu).
   assert (omap fix_pct (fragment v) = fragment v) as H3 by (rewrite Hv; cbn [fragment]; apply Ho; exact Hfr).
-  rewrite Hs, H1, H2, H3.
-  assert (norm_segs v = pathSegs v) as Hp.
-  { unfold norm_segs. apply norm_segs_of_fixed.
-    - (* every segment of the result is a segment of map fix_pct (pathSegs u) or empty *)
-      enough (Forall (fun s => fix_pct s = s) (pathSegs v)) as Hfix by exact Hfix.
-      { rewrite Hv. cbn [pathSegs]. unfold norm_segs, norm_segs_of. cbv zeta.
-        assert (Forall (fun s => fix_pct s = s) (map fix_pct (pathSegs u))) as Hf.
-        { apply Forall_forall. intros x Hx. apply in_map_iff in Hx. destruct Hx as [s [Hs' Hin]]. subst x.
-          apply fix_pct_idem. rewrite forallb_forall in Hps. auto. }
-        assert (forall rel host abs rest kept, Forall (fun s => fix_pct s = s) kept ->
-                 Forall (fun s => fix_pct s = s) rest ->
-                 Forall (fun s => fix_pct s = s) (rds_walk rel host abs kept rest)) as Hwalk.
-        { assert (forall k, Forall (fun s => fix_pct s = s) k -> Forall (fun s => fix_pct s = s) (rev k)) as Hrev.
-          { intros k Hk. apply Forall_forall. intros x Hx. apply in_rev in Hx. rewrite Forall_forall in Hk. auto. }
-          intros rel host abs rest. induction rest as [|w nxt IH]; intros kept Hk Hr.
-          - cbn [rds_walk]. auto.
-          - inversion Hr as [|? ? Hw Hn]; subst. cbn [rds_walk].
-            destruct (seg_dot w).
-            + destruct (rel && _ && _); [apply IH; auto|].
-              destruct nxt as [|n1 n2]; [|apply IH; assumption].
-              destruct kept as [|p k]; [destruct host; repeat constructor|].
-              apply Hrev. constructor; [reflexivity|assumption].
-            + destruct (seg_dotdot w).
-              * destruct (rel && _); [apply IH; auto|].
-                destruct kept as [|p [|pp kk]].
-                -- destruct nxt as [|n1 n2]; [destruct abs; repeat constructor|apply IH; auto].
-                -- destruct nxt as [|n1 n2]; [destruct abs; repeat constructor|apply IH; auto].
-                -- inversion Hk as [|? ? _ Hk']; subst.
-                   destruct nxt as [|n1 n2]; [apply Hrev; constructor; [reflexivity|assumption]|apply IH; assumption].
-              * apply IH; auto. }
-        assert (Forall (fun s => fix_pct s = s)
-                  (match map fix_pct (pathSegs u) with
-                   | [] => []
-                   | _ => rds_walk (relative_ref u) (is_host_set u) (absolutePath u) [] (map fix_pct (pathSegs u))
-                   end)) as Hout.
-        { destruct (map fix_pct (pathSegs u)) as [|s0 sl]; [constructor|]. apply Hwalk; [constructor|exact Hf]. }
-        destruct (negb (is_host_set u)); [|exact Hout].
-        match goal with |- Forall _ (match ?o with _ => _ end) => destruct o as [|[|? ?] [|? ?]] end;
-          try exact Hout. constructor. }
-    - assert (relative_ref v = relative_ref u) as Hrv.
-      { rewrite Hv. unfold relative_ref, is_host_set. cbn [scheme absolutePath hostText ip4 ip6 ipFuture].
-        rewrite norm_host_is_some. destruct (scheme u); reflexivity. }
-      rewrite Hrv. apply rds_walk_stable. exact Hnd.
-    - intros Hh. rewrite Hv. cbn [pathSegs]. unfold norm_segs.
-      assert (is_host_set u = false) as Hhu.
-      { rewrite <- Hh, Hv. unfold is_host_set at 2. cbn [hostText ip4 ip6 ipFuture].
-        rewrite norm_host_is_some. reflexivity. }
-      rewrite Hhu. apply norm_segs_of_not_lone. }
-  rewrite Hp. reflexivity.
+  rewrite Hs, H1, H2, H3, Hp. reflexivity.
+Qed.
+
+(* the three flags path normalization reads are the same after normalization *)
+Lemma normalize_flags u :
+  relative_ref (normalize 63 u) = relative_ref u /\ is_host_set (normalize 63 u) = is_host_set u
+  /\ absolutePath (normalize 63 u) = absolutePath u /\ pathSegs (normalize 63 u) = norm_segs u.
+Proof.
+  rewrite (normalize_fields 63 u ltac:(discriminate)).
+  change (bit 63 M_SCHEME) with true. change (bit 63 M_HOST) with true. change (bit 63 M_PATH) with true. cbv iota.
+  assert (forall a b c d e f g h, is_host_set (mkUri a b (norm_host_text u) (ip4 u) (ip6 u) (omap lowercase (ipFuture u)) c d e f g h)
+           = is_host_set u) as Hh.
+  { intros. unfold is_host_set at 1. cbn [hostText ip4 ip6 ipFuture]. apply norm_host_is_some. }
+  repeat split.
+  - unfold relative_ref. rewrite Hh. cbn [scheme absolutePath]. destruct (scheme u); reflexivity.
+  - apply Hh.
+Qed.
+
+(* ... in particular whenever the output of the dot-segment walk is stable under the walk *)
+Lemma normalize_idem_walk u : uri_pct_wf u = true ->
+  (let out := walk0 (relative_ref u) (is_host_set u) (absolutePath u) (map fix_pct (pathSegs u)) in
+   rds_walk (relative_ref u) (is_host_set u) (absolutePath u) [] out = out) ->
+  components (normalize 63 (normalize 63 u)) = components (normalize 63 u).
+Proof.
+  intros Hwf Hw. apply normalize_idem_core; [exact Hwf|].
+  destruct (normalize_flags u) as (Hr & Hh & Ha & Hp).
+  unfold norm_segs at 1. rewrite Hr, Hh, Ha, Hp. unfold norm_segs.
+  apply norm_segs_of_idem; [|exact Hw].
+  apply walk0_fixed.
+  unfold uri_pct_wf in Hwf. apply andb_prop in Hwf. destruct Hwf as [Hwf _].
+  apply andb_prop in Hwf. destruct Hwf as [Hwf _]. apply andb_prop in Hwf. destruct Hwf as [_ Hwf]. exact Hwf.
+Qed.
+
+(* a stable result path carries no guard segment: the output of the walk was stable *)
+Lemma stable_result_walk rel host abs out :
+  stable_path rel (fet_segs host (guard_segs host abs out)) = true -> rds_walk rel host abs [] out = out.
+Proof.
+  intros H.
+  assert (forall r, stable_path rel (@cons text [46] ([] :: r)) = false) as Hg.
+  { intros r. unfold stable_path. cbn [no_dots forallb drop_dotdots]. change (seg_dot [46]) with true.
+    change (seg_dotdot [46]) with false. cbn [negb andb orb]. change (has_colon []) with false.
+    cbn [andb orb]. rewrite andb_false_r. reflexivity. }
+  destruct abs, host, out as [|[|c0 x0] [|[|c1 x1] r]]; cbn [guard_segs fet_segs negb] in H;
+    try (rewrite Hg in H; discriminate H); try (apply rds_walk_stable; exact H);
+    try reflexivity.
+  all: cbn [rds_walk]; change (seg_dot []) with false; change (seg_dotdot []) with false; reflexivity.
+Qed.
+
+(* full normalization is idempotent whenever the path of its result is stable *)
+Lemma normalize_idem_stable u : uri_pct_wf u = true ->
+  stable_path (relative_ref u) (pathSegs (normalize 63 u)) = true ->
+  components (normalize 63 (normalize 63 u)) = components (normalize 63 u).
+Proof.
+  intros Hwf Hnd. apply normalize_idem_walk; [exact Hwf|]. cbv zeta.
+  destruct (normalize_flags u) as (_ & _ & _ & Hp). rewrite Hp in Hnd.
+  unfold norm_segs in Hnd. rewrite norm_segs_of_steps in Hnd.
+  exact (stable_result_walk _ _ _ _ Hnd).
 Qed.
 
 Lemma normalize_idem_when_no_dots u : uri_pct_wf u = true ->
@@ -921,22 +1026,23 @@ Proof.
   unfold stable_path. rewrite (Forall_no_dots _ Hnd). reflexivity.
 Qed.
 
-(* not a relative-path reference: dot removal is the absolute walk, which leaves no dot segment *)
+(* not a relative-path reference: dot removal is the absolute walk, which leaves no dot segment; the only
+   one in the result is the guard *)
 Lemma normalize_idem u : uri_pct_wf u = true -> relative_ref u = false ->
   components (normalize 63 (normalize 63 u)) = components (normalize 63 u).
 Proof.
-  intros Hwf Hrel. apply normalize_idem_when_no_dots; [exact Hwf|].
-  rewrite (normalize_fields 63 u ltac:(discriminate)). cbn [pathSegs].
-  change (bit 63 M_PATH) with true. cbv iota. unfold norm_segs. rewrite Hrel.
-  eapply Forall_impl; [|apply norm_segs_of_abs_clean].
+  intros Hwf Hrel. apply normalize_idem_walk; [exact Hwf|]. cbv zeta. rewrite Hrel.
+  apply (rds_walk_no_dots false _ _ _ []).
+  eapply Forall_impl; [|apply walk0_abs_clean].
   - intros s [H1 [H2 _]]. auto.
   - unfold uri_pct_wf in Hwf. apply andb_prop in Hwf. destruct Hwf as [Hwf _].
     apply andb_prop in Hwf. destruct Hwf as [Hwf _]. apply andb_prop in Hwf. destruct Hwf as [_ Hwf]. exact Hwf.
 Qed.
 
 (* ------------------------------------------------------------------ refutation witnesses *)
-Lemma uri_wf_intro u : uri_pct_wf u = true -> ipFuture u = None -> lone_empty_hostless u = false -> uri_wf u.
-Proof. intros H1 H2 H3. split; [exact H1|]. split; [|exact H3]. intros f Hf. rewrite H2 in Hf. discriminate Hf. Qed.
+Lemma uri_wf_intro u : uri_pct_wf u = true -> ipFuture u = None -> lone_empty_hostless u = false ->
+  ambiguous_path u = false -> uri_wf u.
+Proof. intros H1 H2 H3 H4. split; [exact H1|]. split; [|split; [exact H3|exact H4]]. intros f Hf. rewrite H2 in Hf. discriminate Hf. Qed.
 
 (* "./b:c/.." -> "./" -> "" : known finding D7a, a relative-path reference whose dot segments cancel *)
 Definition wit_cancel : text := [46; 47; 98; 58; 99; 47; 46; 46].
@@ -971,27 +1077,36 @@ Qed.
 
 (* each hypothesis of [uri_wf] is needed for "mask 0 means normal form" on arbitrary URI objects *)
 Lemma mask_zero_lone_empty_refuted :
-  exists u, uri_pct_wf u = true /\ future_consistent u /\ mask_required u = 0
+  exists u, uri_pct_wf u = true /\ future_consistent u /\ ambiguous_path u = false /\ mask_required u = 0
             /\ components (normalize 63 u) <> components u.
 Proof.
   exists (set_pathSegs [[]] empty_uri). split; [reflexivity|]. split; [intros f Hf; discriminate Hf|].
-  split; [reflexivity|]. vm_compute. discriminate.
+  split; [reflexivity|]. split; [reflexivity|]. vm_compute. discriminate.
+Qed.
+
+(* host-less, absolutePath, path = ["", "a"]: would be written "//a"; normalization puts "." in front *)
+Lemma mask_zero_ambiguous_refuted :
+  exists u, uri_pct_wf u = true /\ future_consistent u /\ lone_empty_hostless u = false /\ mask_required u = 0
+            /\ components (normalize 63 u) <> components u.
+Proof.
+  exists (set_absolutePath true (set_pathSegs [[]; [97]] empty_uri)). split; [reflexivity|].
+  split; [intros f Hf; discriminate Hf|]. split; [reflexivity|]. split; [reflexivity|]. vm_compute. discriminate.
 Qed.
 
 Lemma mask_zero_malformed_pct_refuted :            (* query "%zz" *)
-  exists u, future_consistent u /\ lone_empty_hostless u = false /\ mask_required u = 0
+  exists u, future_consistent u /\ lone_empty_hostless u = false /\ ambiguous_path u = false /\ mask_required u = 0
             /\ components (normalize 63 u) <> components u.
 Proof.
   exists (set_query (Some [37; 122; 122]) empty_uri). split; [intros f Hf; discriminate Hf|].
-  split; [reflexivity|]. split; [reflexivity|]. vm_compute. discriminate.
+  split; [reflexivity|]. split; [reflexivity|]. split; [reflexivity|]. vm_compute. discriminate.
 Qed.
 
 Lemma mask_zero_future_inconsistent_refuted :      (* ipFuture "vA.B" with hostText NULL *)
-  exists u, uri_pct_wf u = true /\ lone_empty_hostless u = false /\ mask_required u = 0
+  exists u, uri_pct_wf u = true /\ lone_empty_hostless u = false /\ ambiguous_path u = false /\ mask_required u = 0
             /\ components (normalize 63 u) <> components u.
 Proof.
   exists (set_ipFuture (Some [118; 65; 46; 66]) empty_uri). split; [reflexivity|].
-  split; [reflexivity|]. split; [reflexivity|]. vm_compute. discriminate.
+  split; [reflexivity|]. split; [reflexivity|]. split; [reflexivity|]. vm_compute. discriminate.
 Qed.
 
 (* the converse "normal form implies mask 0" does not hold (and the property does not ask for it):
